@@ -390,7 +390,10 @@ def run_case(case, ctx):
             x = _quantile_point(ref, case["q"])
             got = float(np.asarray(model.cdf(x.reshape(1, -1)), float)[0])
             want, err = ref_joint_cdf(ref, x)
-            tol = 1e-6 + 10 * err
+            # (the joint cdf is scipy's nested adaptive quadrature with default tolerances; its error grows with the
+            #  ratio range / peak width - 3.8e-6 seen for a variable in units of 1e3 - while a wrong integrand or wrong
+            #  limits are off by 1e-3 and more: 2e-5 is allowed)
+            tol = 2e-5 + 10 * err
             ctx.check("c06.cdf", abs(got - want) <= tol, "joint cdf is not the integral of the joint pdf over the lower-left orthant", point=x.tolist(), got=got, want=want, tolerance=tol, **info)
             ctx.check("c06.cdf-range", -1e-9 <= got <= 1 + 1e-9, "joint cdf outside [0,1]", got=got, **info)
             # list input
